@@ -459,22 +459,134 @@ fn forget_case(ctx: &Ctx, case: u64, acc: &mut Acc) -> Verdict {
     Ok(())
 }
 
+/// 'firsthand': the precedence order also binds what an instance learns first-hand. Single-instance histories mix
+/// told updates (apply_many) with datagrams whose *header* is itself evidence (sender alive at the incarnation it
+/// states) and whose payload is further updates. No timer is ever handed back, so no record may vanish, every
+/// record may only move forward, and - whenever the sender's identity is the one on record afterwards - the view
+/// must be exactly the join of the previous view, Alive(sender, stated incarnation) and (sender still active) the
+/// payload. A suspicion is therefore lifted only by a strictly higher incarnation, never by mere traffic.
+fn firsthand_case(ctx: &Ctx, case: u64, acc: &mut Acc) -> Verdict {
+    let mut r = Rng64::derive(ctx.seed, 0xC01D, case);
+    let mut n = fresh_with(r.next(), false);
+    let mut model = MView::default();
+    let steps = r.range(6, 30);
+    let hi = r.range(1, 4) as u16;
+    let (mut heard_from_suspect_same_inc, mut exact, mut from_down, mut superseded_src) = (0u64, 0u64, 0u64, 0u64);
+    for _ in 0..steps {
+        let rec;
+        let mut judged_exact = true;
+        if r.chance(2, 5) {
+            let mut u = gen::update(&mut r, 1, hi, 2);
+            if r.chance(1, 2) {
+                u = Member::new(*u.id(), gen::small_inc(&mut r), State::Suspect);
+            }
+            rec = n.call(Op::Apply(vec![u.clone()], r.chance(1, 2)));
+            ensure!(rec.res.is_ok(), "C01/apply-error", "apply_many({u:?}) returned {:?}", rec.res);
+            model.apply(MRec::of(&u));
+        } else {
+            // the sender: preferably somebody on record, at the recorded incarnation or around it
+            let known: Vec<MRec> = model.0.values().copied().collect();
+            let (src, inc) = if !known.is_empty() && r.chance(3, 4) {
+                let k = known[r.usize(known.len())];
+                let inc = match r.below(4) {
+                    0 => k.inc.saturating_sub(1),
+                    1 => k.inc.saturating_add(1),
+                    _ => k.inc,
+                };
+                (if r.chance(1, 6) { Id::new(k.id.addr, r.below(3) as u8) } else { k.id }, inc)
+            } else {
+                (Id::new(r.range(1, hi as u64 + 1) as u16, r.below(3) as u8), gen::small_inc(&mut r))
+            };
+            let message = match r.below(5) {
+                0 => Message::Ping(r.below(4) as u8),
+                1 => Message::Announce,
+                _ => Message::Gossip,
+            };
+            let k = if message == Message::Announce { 0 } else { r.below(3) };
+            let us: Vec<_> = (0..k).map(|_| gen::update(&mut r, 1, hi, 2)).collect();
+            let h = Header { src, src_incarnation: inc, dst: n.id(), message: message.clone() };
+            let d = wire::build(CodecKind::Hand, &h, if message == Message::Announce { None } else { Some(&us) }, &[]);
+            if model.0.get(&src.addr).is_some_and(|m| m.id == src && m.st == State::Suspect && m.inc == inc) {
+                heard_from_suspect_same_inc += 1;
+            }
+            rec = n.call(Op::Data(d));
+            if !rec.res.is_ok() {
+                judged_exact = false;
+            } else {
+                model.apply(MRec { id: src, inc, st: State::Alive });
+                match model.0.get(&src.addr).copied() {
+                    Some(m) if m.id == src && m.active() => {
+                        for u in &us {
+                            model.apply(MRec::of(u));
+                        }
+                    }
+                    Some(m) if m.id == src => from_down += 1,
+                    _ => {
+                        // a superseded generation talking: whether its payload counts is C09's business
+                        superseded_src += 1;
+                        judged_exact = false;
+                    }
+                }
+            }
+        }
+        for old in &rec.pre.state {
+            match rec.post.rec_for_addr(old.id().addr) {
+                None => ensure!(false, "C01/record-vanished", "record {old:?} disappeared in {} although no timer was handed back", rec.op.name()),
+                Some(new) => ensure!(
+                    MRec::of(old).le(&MRec::of(new)),
+                    "C01/backwards",
+                    "record moved backwards: {old:?} -> {new:?} in {} ({})",
+                    rec.op.name(),
+                    match &rec.op {
+                        Op::Data(d) => format!("datagram {:?}", wire::parse(CodecKind::Hand, d).map(|p| format!("{:?}", p.header))),
+                        _ => "told".into(),
+                    }
+                ),
+            }
+        }
+        if judged_exact {
+            let got = view_of(&n);
+            ensure!(
+                got == model.view(),
+                "C01/firsthand-model-mismatch",
+                "after {} the view is {got:?} but the join of the previous view, the header's evidence and the accepted payload is {:?}",
+                rec.op.name(),
+                model.view()
+            );
+            exact += 1;
+        } else {
+            model = MView::from_members(n.last.state.iter());
+        }
+    }
+    acc.tally("firsthand_histories", 1);
+    acc.tally("datagrams_from_a_suspect_at_the_suspected_incarnation", heard_from_suspect_same_inc);
+    acc.tally("firsthand_steps_compared_with_the_join", exact);
+    acc.tally("datagrams_from_a_down_sender", from_down);
+    acc.tally("datagrams_from_a_superseded_generation", superseded_src);
+    if heard_from_suspect_same_inc > 0 {
+        acc.nontrivial(fp(&("firsthand", case, heard_from_suspect_same_inc, exact)));
+    }
+    acc.sample(|| json!({"workload": "firsthand", "steps": steps, "from_suspect_same_incarnation": heard_from_suspect_same_inc, "steps_compared": exact}));
+    Ok(())
+}
+
 pub fn check() -> Check {
     Check {
         id: "C01",
         level: "exploration",
-        rule: "random multisets of 1..=12 updates over addresses 1..=4 x generations 0..=3 x incarnations {0,1,2,3,MAX-2,MAX-1,MAX}+uniform x 3 states, each applied to fresh instances in every permutation (|U|<=5) or 24 random ones, with duplications, batch splits, do_broadcast on/off and through Gossip datagrams, compared with an executable join model; all ordered 3- (and 4-) tuples over a 36-update reduced domain; two-way full-state exchanges between instances with independent random histories. Non-trivial: some address receives >=2 distinct updates (perm), tuple not constant (exh), both prior states non-empty and different (exchange); distinct by multiset / tuple / state pair. 'forget': single-instance histories of updates interleaved with the forget-timers the instance itself scheduled (handed back at any later point), compared after every step with a sequential model (join + forget of exactly the named Down identity); a record may only disappear in the step that hands back the forget-timer of exactly its identity. A quarter of the instances use packets smaller than a member's encoding; a third of the deliveries have updates about the instance itself mixed in.",
+        rule: "random multisets of 1..=12 updates over addresses 1..=4 x generations 0..=3 x incarnations {0,1,2,3,MAX-2,MAX-1,MAX}+uniform x 3 states, each applied to fresh instances in every permutation (|U|<=5) or 24 random ones, with duplications, batch splits, do_broadcast on/off and through Gossip datagrams, compared with an executable join model; all ordered 3- (and 4-) tuples over a 36-update reduced domain; two-way full-state exchanges between instances with independent random histories. Non-trivial: some address receives >=2 distinct updates (perm), tuple not constant (exh), both prior states non-empty and different (exchange); distinct by multiset / tuple / state pair. 'forget': single-instance histories of updates interleaved with the forget-timers the instance itself scheduled (handed back at any later point), compared after every step with a sequential model (join + forget of exactly the named Down identity); a record may only disappear in the step that hands back the forget-timer of exactly its identity. A quarter of the instances use packets smaller than a member's encoding; a third of the deliveries have updates about the instance itself mixed in. 'firsthand': single-instance histories mixing told updates with datagrams (Gossip/Ping/Announce) from senders on record at, below and above the recorded incarnation: the header is itself evidence (Alive at the stated incarnation), so every record may only move forward, none may vanish (no timer is handed back) and, whenever the sender's identity is the one on record afterwards, the view must equal the join of previous view, header evidence and (sender active) payload - a suspicion is lifted only by a strictly higher incarnation, never by traffic.",
         assumptions: &[
             "Identity::win_addr_conflict is a total order on identities sharing an address (harness identity: higher generation wins)",
             "own-address updates are excluded here (C09/C10 own them)",
         ],
-        required: &["permutations_applied", "exchanges", "exhaustive_tuples_len3", "records_forgotten_by_their_timer", "forget_timers_without_effect", "identities_back_after_being_forgotten"],
+        required: &["permutations_applied", "exchanges", "exhaustive_tuples_len3", "records_forgotten_by_their_timer", "forget_timers_without_effect", "identities_back_after_being_forgotten", "datagrams_from_a_suspect_at_the_suspected_incarnation", "firsthand_steps_compared_with_the_join"],
         workloads: vec![
             Workload { name: "perm", f: perm_case, quick: 40_000, thorough: 1_200_000, flav: Flav::Checked },
             Workload { name: "exh3", f: exh3, quick: 36, thorough: 36, flav: Flav::Checked },
             Workload { name: "exh4", f: exh4, quick: 0, thorough: 36, flav: Flav::Checked },
             Workload { name: "exchange", f: exchange_case, quick: 100_000, thorough: 2_000_000, flav: Flav::Checked },
             Workload { name: "forget", f: forget_case, quick: 100_000, thorough: 2_000_000, flav: Flav::Checked },
+            Workload { name: "firsthand", f: firsthand_case, quick: 100_000, thorough: 2_000_000, flav: Flav::Checked },
         ],
         exhaustive: false,
         aggregate: None,
